@@ -69,6 +69,13 @@ type unknownValue struct{}
 type absRunes struct{ s string }
 type absBytes struct{ s string }
 
+// absOpaque: a value that can only be compared for equality with another of its kind (a component of an
+// abstract date: not a number to calculate with).
+type absOpaque struct {
+	kind string
+	k    int64
+}
+
 // absList: a list taken from a literal package-level table (nil: the empty list).
 type absList struct{ tv *TVal }
 
@@ -585,6 +592,18 @@ func (ev *evaluator) eval(fr *evalFrame, v ssa.Value, depth int) (interface{}, b
 			return nil, false
 		}
 		switch l := a.(type) {
+		case absOpaque:
+			r, ok := b.(absOpaque)
+			if !ok || r.kind != l.kind {
+				return nil, false
+			}
+			switch x.Op {
+			case token.EQL:
+				return l.k == r.k, true
+			case token.NEQ:
+				return l.k != r.k, true
+			}
+			return nil, false
 		case int64:
 			r, ok := b.(int64)
 			if !ok {
